@@ -261,7 +261,48 @@ def run(ctx):
     ctx.guard("C16.R10", "documented template requirements", lambda: r10_documented_requirements(ctx))
     ctx.guard("C16.R9", "equal molecules", lambda: __import__("c20").equal_molecules(ctx, "C16.R9"))
     ctx.guard("C16.R11", "nested loops count their own passes", lambda: r11_nested_loops(ctx))
+    ctx.guard("C16.R14", "templates use every required parameter component and evaluate under their own identifier", lambda: r14_template_parameters(ctx))
     ctx.guard("C16.R13", "parameter schedules are wired to the state they are documented to drive", lambda: r13_schedules(ctx))
+
+
+def r14_template_parameters(ctx, rule="C16.R14"):
+    """template level: (a) every REQUIRED component / condition parameter of a template (a `Box<dyn Component>` / `Box<dyn Condition>`
+    argument or field of its `Parameters` struct; optional ones are `Option<..>`) is part of the configuration it builds, in every
+    variant (every combination of present / absent optional parameters); (b) a template generic over an identifier `I` evaluates
+    with the evaluator of THAT identifier in every evaluation step it contains (`evaluate_with::<I>()`, not `evaluate()`)."""
+    F = ctx.facts
+    sums, fns, res, entered = analyse_templates(ctx)
+    n = 0
+    for (fn, tree, full, w, final) in res:
+        if tree is None:
+            continue
+        n += 1
+        leaves = all_leaves(tree, [])
+        used = {l.ty[len("param:"):] for l in leaves if (l.ty or "").startswith("param:")}
+        # required parameters: component-typed arguments and fields of a Parameters struct argument
+        required = set()
+        names = {d["arg"]: d["name"] for d in fn.body.dbg if d.get("arg")}
+        for i, ty in enumerate(fn.sig["inputs"]):
+            if T.is_comp_ty(ty):
+                required.add(names.get(i + 1, str(i)))
+            else:
+                adt = F.adts.get(ty.split("<")[0])
+                if adt is not None and ty.startswith("mahf::heuristics::") and adt["kind"] == "Struct":
+                    for fd in adt["variants"][0]["fields"]:
+                        if T.is_comp_ty(fd["ty"]):
+                            required.add(fd["name"])
+        missing = sorted(required - used)
+        ctx.check(not missing, rule, fn.key, "required-parameters-used:%s" % ",".join(sorted(required - used)) if missing else "required-parameters-used",
+                  "the configuration built by %s does not contain its required parameter component(s) %s (in the variant with parameters %s): a component the caller supplies is silently dropped"
+                  % (fn.key.split("::")[-1], missing, sorted(used)), loc=fn.loc())
+        tparams = [p_["name"] for p_ in (fn.generics or {}).get("params", []) if p_.get("kind") == "type"]
+        idents = [p_ for p_ in tparams if any(pr.get("self") == p_ and "identifier::Identifier" in (pr.get("trait") or "") for pr in (fn.generics or {}).get("preds", []))]
+        if idents:
+            wrong = [l for l in leaves if (l.ty or "").endswith("evaluation::PopulationEvaluator") and getattr(l.leaf, "gargs", None) is not None and not any(g in idents for g in l.leaf.gargs)]
+            ctx.check(not wrong, rule, fn.key, "evaluates-under-its-own-identifier",
+                      "%s is generic over the identifier %s but contains an evaluation step for %s: with another identifier than Global the population is evaluated by a different evaluator than the one the template names"
+                      % (fn.key.split("::")[-1], idents, sorted({str(l.leaf.gargs) for l in wrong})), loc=fn.loc())
+    ctx.floor(rule, "template variants", n, 30)
 
 
 def analyse_templates(ctx):
@@ -286,6 +327,15 @@ def analyse_templates(ctx):
         if not trees:
             res.append((fn, None, full, None, None))
     return sums, fns, res, entered
+
+
+def r1_r2_r3_only(ctx):
+    """the template trees / stack discipline / evaluated-where-read rules, for properties that rest on them"""
+    new = ctx.alias.get("C16.R1")
+    if new:
+        ctx.alias["C16.R2"] = new
+        ctx.alias["C16.R3"] = new
+    return r1_r2_r3(ctx, {})
 
 
 def r1_r2_r3(ctx, state):
